@@ -7,14 +7,14 @@ CFG = {
     "theory_files": ["theories/Gen/Closed.v", "theories/Gen/ClosedProofs.v", "theories/Gen/FamilyProofs.v",
                      "theories/Gen/Sphere.v", "theories/Gen/Hemisphere.v", "theories/Gen/Cylinder.v",
                      "theories/Gen/Cube.v", "theories/Gen/CylinderProofs.v", "theories/Gen/SphereProofs.v",
-                     "theories/Gen/CubeProofs.v", "theories/Gen/CylinderGeom.v", "theories/Gen/SphereGeom.v", "theories/Gen/CylinderVolume.v",
+                     "theories/Gen/CubeProofs.v", "theories/Gen/CylinderGeom.v", "theories/Gen/SphereGeom.v", "theories/Gen/CylinderVolume.v", "theories/Gen/CylinderMono.v",
                      "theories/Gen/SphereVolume.v", "theories/Gen/HemiVolume.v", "theories/Gen/CubeClasses.v", "theories/Gen/GenProofs.v"],
     "level_text": "Coq theorems about Gallina copies of the index-generating loops of the solid primitives (UV sphere "
                   "welded/unwelded, hemisphere, capped cylinder, welded box table, six-quad box) and their vertex "
                   "coincidence classes: well-formed indices and closed + consistently oriented surface "
                   "(every directed edge once, its reverse once) proved parametrically for EVERY rows >= 2, columns >= 3, "
                   "sides >= 3 (explicit twin involution on edge slots; no size bound); over the reals, for the WHOLE index "
-                  "list with the generators' position formulas: cylinder volume = inscribed prism n*(r^2 sin(2pi/n)/2)*h, below and "
+                  "list with the generators' position formulas: cylinder volume = inscribed prism n*(r^2 sin(2pi/n)/2)*h, below, monotone in n and "
                   "converging to pi r^2 h, sphere / hemisphere volume as a closed finite sum over the rings, positive, every face "
                   "outward; both boxes: exact volume w*h*d, outward faces and vertex normals, coincidence classes derived from the "
                   "real positions; the models are tied to "
@@ -25,7 +25,7 @@ CFG = {
                   "differential correspondence (index lists, coincidence classes); the real-valued position functions of sphere / "
                   "hemisphere / cylinder are hand copies of the Go formulas and the float positions are not modelled: the "
                   "implementation's volume (vs the same closed forms), outwardness, vertex normals and convergence are checked "
-                  "numerically by the harness on every run; convergence of the sphere volumes and monotonicity are not proved",
+                  "numerically by the harness on every run; convergence of the sphere / hemisphere volumes is not proved (cylinder: below, monotone, converging)",
     "technique": "Coq proof (verified edge-pairing checker, involution on edge slots, exact polynomial identities) + "
                  "vm_compute correspondence check + float oracle",
     "design_ref": "DESIGN.md §4 C18",
